@@ -13,6 +13,18 @@
           the Lean theorems (line_rows_eq_std_ext / line_zero_division) predict rows or ZeroDivisionError, the prediction
           is checked against the model and the model against the library.
   raw   : the same sections with bytes flipped / truncated -> real library vs model, errors included.
+  info  : END TO END FROM SECTION BYTES (seventh wave).  A whole DWARF description: abbreviation tables and 1..5 units of
+          .debug_info (versions 2..5, both formats, address sizes; a top entry with several attributes, children, DW_AT_stmt_list
+          in DW_FORM_sec_offset / data4 / data8, also behind DW_FORM_indirect, at any position) as a C04 forest, and a .debug_line
+          of 1..3 programs with gaps; .debug_info / .debug_abbrev / .debug_line all come from the Lean SPEC ENCODERS.  Units
+          name programs in any order, share them, have no DW_AT_stmt_list, or (rarely) one beyond the section / in another
+          form / of another address size.  The REAL library: DWARFInfo.iter_CUs x line_program_for_CU x get_entries, nothing
+          handed in.  A quarter of the cases as a whole FILE: the sections stored in an ELF image plainly / gABI-compressed
+          (random subset, levels 0..9) / in the legacy .zdebug framing, opened by ELFFile(...).get_dwarf_info(); there the
+          library is also held to the whole-file model (C11's container model + Model/LineFile; Props/C05
+          `line_programs_of_file`), zlib's answers recorded from the real module.  Compared with Props/C05 `line_programs_from_sections` (property, when the descriptions are well formed),
+          `stmt_list_beyond_section` / `stmt_list_without_debug_line` (prediction about the model) and with the composed
+          model Model/LineInfo (correspondence).
 """
 import io, signal
 from common import run_impl, canon, hx, rnd_uint, rnd_bytes, BOUNDARY
@@ -24,11 +36,18 @@ RULE = ('sec: header parameters from boundary pools x uniform (opcode_base 1..25
         'v5 entry formats over every (content type, allowed form) pair, programs of 0..400 instructions over all opcode kinds '
         'with padded LEB128 operands, several sequences, 1..4 units per section, repeated and absent stmt_list; '
         'edge: min_inst/max_ops/line_range in {0,1,255,...} x extension bytes x short dividing programs; '
-        'raw: byte flips and truncations of those sections. Non-trivial = distinct (section bytes, query); every sec case '
+        'raw: byte flips and truncations of those sections; '
+        'info: forests of 1..5 units x 1..3 programs, DW_AT_stmt_list form sec_offset/data4/data8 (x indirect) at any attribute '
+        'position, shared / absent / beyond-the-section / other-form / mismatching units, queried in iteration order or shuffled, '
+        '25% through an ELF image (plain / gABI subset / .zdebug). '
+        'Non-trivial = distinct (section bytes, query); every sec case '
         'parses a header and executes a program.')
 ASSUMPTIONS = ['io.BytesIO read/seek/tell semantics (relative seek clamps at 0)', 'struct.unpack for <>BHIQbhiq',
-               'DIE/CU parsing (DWARFInfo.iter_CUs, CU.get_top_DIE, attribute .value for data4/data8/sec_offset) is only a fixture here',
-               'copy.copy of a LineState is a snapshot']
+               'sec/edge/raw: DIE/CU parsing (DWARFInfo.iter_CUs, CU.get_top_DIE, attribute .value) is only a fixture there; '
+               'info: it is part of what is checked (model = C04\'s, theorem = Props/C05 line_programs_from_sections)',
+               'copy.copy of a LineState is a snapshot',
+               'info through a file: zlib.decompressobj().decompress is external, its answers are recorded from the real module '
+               'during the run and handed to the model as a table (as in C11)']
 
 KNOWN_LENS = [0, 1, 1, 1, 1, 0, 0, 0, 1, 0, 0, 1]
 STD_NAMES = {1: 'copy', 2: 'advance_pc', 3: 'advance_line', 4: 'set_file', 5: 'set_column', 6: 'negate_stmt',
@@ -361,30 +380,32 @@ def run_library(cfg, data, secs, fx, stmt_offsets):
             di.supplementary_dwarfinfo = make_dwarfinfo(le, asz, {}, None)
     cus = list(di.iter_CUs())
     assert len(cus) == len(stmt_offsets), 'fixture: CU count'
-    res = []
-    for cu in cus:
-        box = {}
+    return [observe_cu(di, cu) for cu in cus]
 
-        def parse():
-            lp = di.line_program_for_CU(cu)
-            box['lp'] = lp
-            if lp is None:
-                return None
-            return {'header': canon(lp.header), 'start': lp.program_start_offset, 'end': lp.program_end_offset}
-        r = {'parse': run_impl(parse)}
-        lp = box.get('lp')
-        if lp is not None:
-            def decode():
-                first = lp._decoded_entries is None
-                es = lp.get_entries()
-                return {'entries': [{'command': e.command, 'is_extended': e.is_extended, 'args': canon(e.args),
-                                     'state': obs_state(e.state)} for e in es],
-                        'file_entry_after': canon(lp.header['file_entry']),
-                        # compared only when the loop body ran (otherwise the stream stands where the header parse left it)
-                        'tell': lp.stream.tell() if first and lp.program_start_offset < lp.program_end_offset else None}
-            r['decode'] = run_impl(decode)
-        res.append(r)
-    return res
+
+def observe_cu(di, cu):
+    """line_program_for_CU(cu), then get_entries() on the object: {'parse':…, 'decode':…}"""
+    box = {}
+
+    def parse():
+        lp = di.line_program_for_CU(cu)
+        box['lp'] = lp
+        if lp is None:
+            return None
+        return {'header': canon(lp.header), 'start': lp.program_start_offset, 'end': lp.program_end_offset}
+    r = {'parse': run_impl(parse)}
+    lp = box.get('lp')
+    if lp is not None:
+        def decode():
+            first = lp._decoded_entries is None
+            es = lp.get_entries()
+            return {'entries': [{'command': e.command, 'is_extended': e.is_extended, 'args': canon(e.args),
+                                 'state': obs_state(e.state)} for e in es],
+                    'file_entry_after': canon(lp.header['file_entry']),
+                    # compared only when the loop body ran (otherwise the stream stands where the header parse left it)
+                    'tell': lp.stream.tell() if first and lp.program_start_offset < lp.program_end_offset else None}
+        r['decode'] = run_impl(decode)
+    return r
 
 
 def rows_of(decode_ok):
@@ -516,6 +537,357 @@ def _brief(x):
     return x if len(s) < 3000 else s[:3000] + '…'
 
 
+# ----------------------------------------------------------------------------- info: end to end from section bytes
+class _NoCount:
+    def count(self, *_a, **_k):
+        pass
+
+
+F_STRING, F_DATA1, F_DATA2, F_DATA4, F_DATA8, F_SDATA, F_UDATA, F_ADDR, F_STRP, F_INDIRECT, F_SEC_OFFSET = (
+    0x08, 0x0b, 0x05, 0x06, 0x07, 0x0d, 0x0f, 0x01, 0x0e, 0x16, 0x17)
+AT_NAME, AT_STMT_LIST, AT_LOW_PC, AT_LANGUAGE, AT_COMP_DIR, AT_PRODUCER = 0x03, 0x10, 0x11, 0x13, 0x1b, 0x25
+BAD_KINDS = ['beyond', 'beyond', 'other_form', 'asz_mismatch', 'fmt_mismatch', 'duplicate']
+
+
+def cstr(rng):
+    return bytes(rng.randrange(1, 256) for _ in range(rng.choice([0, 1, 1, 3, 7])))
+
+
+def gen_info_lines(ctx, rng):
+    """phase 1: the sections of strings and the line programs (their offsets come back from the Spec encoder)"""
+    le = rng.random() < 0.5
+    line_str, lo = gen_strsec(rng)
+    strsec, so = gen_strsec(rng)
+    sup_present = rng.random() < 0.5
+    sup_str, uo = gen_strsec(rng)
+    offs = {'line_str': lo, 'str': so, 'sup_str': uo}
+    lines = []
+    for _ in range(rng.choice([1, 1, 2, 2, 3])):
+        fmt64 = rng.random() < 0.3
+        asz = rng.choice([4, 8])
+        while True:
+            h = gen_header(rng, le, fmt64, asz, offs, _NoCount())
+            # zero divisors are the business of `edge` / `sec` (a decode that raises half-way leaves appends behind in a
+            # shared cached header, which the model, a function of the bytes, does not reproduce)
+            if h['max_ops'] and h['line_range']:
+                break
+        r = rng.random()
+        n = 0 if r < 0.05 else rng.randrange(1, 10) if r < 0.7 else rng.randrange(10, 40)
+        lines.append({'header': h, 'instrs': gen_program(rng, h, n, _NoCount()), 'ext': hx(gen_ext(rng, False)),
+                      'gap': hx(rnd_bytes(rng, rng.choice([0, 0, 0, 1, 3, 8])))})
+        ctx.out.count('info:prog:v%d:%s:asz%d' % (h['version'], 'fmt64' if fmt64 else 'fmt32', asz))
+    secs = {}
+    if rng.random() < 0.93:
+        secs['str'] = hx(strsec)
+    if rng.random() < 0.93:
+        secs['line_str'] = hx(line_str)
+    # a fraction as a whole FILE: ELFFile(...).get_dwarf_info() on an image storing the sections plainly, gABI-compressed
+    # (a random subset) or in the legacy .zdebug framing (no supplementary object there: it would be attached by hand)
+    store = rng.choice(['plain', 'gabi', 'gabi', 'zdebug']) if rng.random() < 0.25 else None
+    if store:
+        sup_present = False
+    base = {'p': 'C05', 'k': 'info', 'le': le, 'dasz': rng.choice([4, 8]), 'secs': secs, 'lines': lines,
+            'tail': hx(rnd_bytes(rng, rng.choice([0, 0, 2, 7]))), 'sup_present': sup_present,
+            'sup_str': hx(sup_str) if rng.random() < 0.95 else None, 'line_present': rng.random() >= 0.03}
+    return base, so, store
+
+
+def gen_info_units(ctx, rng, base, str_offs, line_offs, line_len, store=None):
+    """phase 2: abbreviation tables and units whose top entries name the programs by the offsets of phase 1"""
+    out = ctx.out
+    lines = base['lines']
+    shared_table = rng.random() < 0.5
+    tables = [{'decls': [], 'gap': hx(rnd_bytes(rng, rng.choice([0, 0, 2]))), 'end_len': rng.choice([1, 1, 2])}] if shared_table else []
+    units = []
+    code = [0]
+
+    def new_decl(tag, children, specs, table):
+        code[0] += rng.choice([1, 1, 1, 2, 130])
+        c = code[0]
+        tables[table]['decls'].append({'code': c, 'cl': ulen(c) + rng.choice([0, 0, 1]), 'tag': tag, 'children': children,
+                                       'specs': specs})
+        return c
+
+    for ui in range(rng.choice([1, 2, 2, 3, 4, 5])):
+        ver = rng.choice([2, 3, 4, 5])
+        r = rng.random()
+        kind = 'prog' if r < 0.74 else 'absent' if r < 0.88 else rng.choice(BAD_KINDS)
+        fmt64, asz = rng.random() < 0.3, rng.choice([4, 8])
+        value = None
+        pi = rng.randrange(len(lines))
+        ph = lines[pi]['header']
+        if kind == 'fmt_mismatch' and ph['version'] >= 5:
+            kind = 'asz_mismatch'           # (a version 5 header read in the other format ends in arbitrary entry formats)
+        if kind in ('prog', 'asz_mismatch', 'fmt_mismatch', 'other_form', 'duplicate'):
+            fmt64, asz, value = ph['fmt64'], ph['asz'], line_offs[pi]
+            if kind == 'asz_mismatch':
+                asz = 12 - asz
+            if kind == 'fmt_mismatch':
+                fmt64 = not fmt64
+        elif kind == 'beyond':
+            value = rng.choice([line_len, line_len, max(0, line_len - 1), max(0, line_len - 3), line_len + 1, line_len + 100,
+                                2 ** 31, 2 ** 32 - 1, 2 ** 63 - 1, 2 ** 63, 2 ** 64 - 1])
+        osz = 8 if fmt64 else 4
+        # the form of DW_AT_stmt_list: class lineptr (sec_offset from version 4 on, data4 / data8 before)
+        forms = [F_SEC_OFFSET, F_SEC_OFFSET, F_SEC_OFFSET, F_DATA4, F_DATA8] if ver >= 4 else [F_DATA4, F_DATA4, F_DATA8]
+        if kind == 'other_form':
+            forms = [F_UDATA, F_UDATA, F_SDATA, F_STRING, F_DATA1, F_DATA2]
+        form = rng.choice(forms)
+        if value is not None:
+            cap = {F_SEC_OFFSET: 8 * osz, F_DATA4: 32, F_DATA8: 64, F_DATA1: 8, F_DATA2: 16}.get(form)
+            if cap is not None and value >= 1 << cap:
+                form = F_DATA8 if value < 1 << 64 else form
+                if form == F_DATA8 and kind == 'other_form':
+                    kind = 'prog'
+        attrs = []          # (name, form, op)
+        if rng.random() < 0.5:
+            attrs.append((AT_PRODUCER, F_STRING, ['str', hx(cstr(rng))]))
+        if rng.random() < 0.7:
+            if 'str' in base['secs'] and rng.random() < 0.3:
+                attrs.append((AT_NAME, F_STRP, ['nat', rng.choice(str_offs)]))
+            else:
+                attrs.append((AT_NAME, F_STRING, ['str', hx(cstr(rng))]))
+        if rng.random() < 0.5:
+            attrs.append((AT_COMP_DIR, F_STRING, ['str', hx(cstr(rng))]))
+        if rng.random() < 0.5:
+            attrs.append((AT_LANGUAGE, rng.choice([F_DATA1, F_DATA2]), ['nat', rng.randrange(256)]))
+        if rng.random() < 0.4:
+            attrs.append((AT_LOW_PC, F_ADDR, ['nat', rnd_uint(rng, 8 * asz)]))
+        rng.shuffle(attrs)
+
+        def stmt_attr(v, f):
+            if f == F_STRING:
+                return (AT_STMT_LIST, f, ['str', hx(cstr(rng))])
+            if f == F_UDATA:
+                return (AT_STMT_LIST, f, ['uleb', ulen(v) + rng.choice([0, 0, 1]), v])
+            if f == F_SDATA:
+                v = v if rng.random() < 0.5 else -1 - v
+                return (AT_STMT_LIST, f, ['sleb', slen(v) + rng.choice([0, 0, 1]), v])
+            if f in (F_DATA1, F_DATA2):
+                v = v % (1 << (8 if f == F_DATA1 else 16))
+            return (AT_STMT_LIST, f, ['nat', v])
+        if kind != 'absent':
+            attrs.insert(rng.randrange(len(attrs) + 1), stmt_attr(value, form))
+            if kind == 'duplicate':
+                # a second DW_AT_stmt_list (never in a well-formed entry): `attributes` is a dict, the last one counts
+                other = rng.choice(line_offs + [line_len])
+                attrs.insert(rng.randrange(len(attrs) + 1), stmt_attr(other, rng.choice([F_DATA4, F_DATA8])))
+        table = 0
+        if not shared_table:
+            tables.append({'decls': [], 'gap': hx(rnd_bytes(rng, rng.choice([0, 0, 3]))), 'end_len': rng.choice([1, 1, 2])})
+            table = len(tables) - 1
+        specs, avs = [], []
+        for an, fc, op in attrs:
+            spec = {'name': an, 'form': fc, 'nl': ulen(an) + rng.choice([0, 0, 0, 1])}
+            a = {'form': fc, 'op': op}
+            if fc in (F_SEC_OFFSET, F_DATA4, F_DATA8, F_DATA1, F_DATA2, F_STRING) and rng.random() < 0.12:
+                # DW_FORM_indirect: the final form stands in the entry, behind 0..1 further DW_FORM_indirect codes
+                spec['form'] = F_INDIRECT
+                a['ind'] = [1 + rng.choice([0, 0, 1])] * rng.choice([1, 1, 2])
+                if an == AT_STMT_LIST:
+                    out.count('info:stmt:indirect')
+            specs.append(spec)
+            avs.append(a)
+        kids = []
+        for _ in range(rng.choice([0, 0, 0, 1, 2])):
+            # children; some carry a DW_AT_stmt_list of their own, which is nobody's business
+            kspecs, kattrs = [{'name': AT_NAME, 'form': F_STRING}], [{'form': F_STRING, 'op': ['str', hx(cstr(rng))]}]
+            if rng.random() < 0.3:
+                kspecs.append({'name': AT_STMT_LIST, 'form': F_DATA4})
+                kattrs.append({'form': F_DATA4, 'op': ['nat', rng.choice(line_offs + [line_len, 0])]})
+            kc = new_decl(0x34, False, kspecs, table)
+            kids.append({'code': kc, 'cl': ulen(kc) + rng.choice([0, 0, 1]), 'attrs': kattrs})
+        tc = new_decl(0x11, bool(kids), specs, table)
+        tree = {'code': tc, 'cl': ulen(tc) + rng.choice([0, 0, 2]), 'attrs': avs, 'kids': kids, 'nl': rng.choice([1, 1, 2])}
+        units.append({'fmt64': fmt64, 'version': ver, 'asz': asz, 'table': table, 'tree': tree})
+        out.count('info:unit:%s' % kind)
+        out.count('info:unit:v%d:%s' % (ver, 'fmt64' if fmt64 else 'fmt32'))
+        if kind != 'absent':
+            out.count('info:stmt:form%#x' % form)
+    order = list(range(len(units)))
+    r = rng.random()
+    if r < 0.25:
+        rng.shuffle(order)
+    elif r < 0.4:
+        order += [rng.randrange(len(units)) for _ in range(rng.choice([1, 2]))]      # a unit asked again
+    req = dict(base, abbrevs=tables, units=units, order=order)
+    fx = {'via_elf': bool(store), 'store': store, 'level': rng.choice([0, 1, 6, 9]), 'zsubset': rng.getrandbits(8),
+          'pre': [rng.choice(['', '', '', 'top', 'iter', 'abandon']) for _ in order]}
+    return req, fx
+
+
+def build_elf_stored(le, dasz, sections, store, level, zsubset):
+    """an ELF image storing the sections plainly / gABI-compressed (SHF_COMPRESSED + Elf_Chdr, the subset `zsubset`) /
+    in the legacy .zdebug framing ("ZLIB" + 8-byte big-endian size; every section, under its .zdebug_ name)"""
+    import struct, zlib
+    cls = 64 if dasz == 8 else 32
+    img = elfbuild.ElfImage(cls=cls, le=le, e_type=elfbuild.ET_EXEC,
+                            e_machine=elfbuild.EM_X86_64 if dasz == 8 else elfbuild.EM_386)
+    bo = '<' if le else '>'
+    for i, (nm, b) in enumerate((n, b) for n, b in sections.items() if b is not None):
+        if store == 'gabi' and (zsubset >> i) & 1:
+            z = zlib.compress(b, level)
+            hdr = struct.pack(bo + 'IIQQ', 1, 0, len(b), 1) if cls == 64 else struct.pack(bo + 'III', 1, len(b), 1)
+            img.add_section(nm, elfbuild.SHT_PROGBITS, data=hdr + z, flags=elfbuild.SHF_COMPRESSED, addralign=8 if cls == 64 else 4)
+        elif store == 'zdebug':
+            img.add_section('.z' + nm[1:], elfbuild.SHT_PROGBITS, data=b'ZLIB' + len(b).to_bytes(8, 'big') + zlib.compress(b, level))
+        else:
+            img.add_section(nm, elfbuild.SHT_PROGBITS, data=b)
+    return img.build()
+
+
+def info_impl(req, fx, reply):
+    """the REAL library on the encoded sections: one observation per entry of req['order']"""
+    le, dasz = req['le'], req['dasz']
+    secs = req['secs']
+    sections = {'.debug_info': bytes.fromhex(reply['info']), '.debug_abbrev': bytes.fromhex(reply['abbrev']),
+                '.debug_line': bytes.fromhex(reply['line']) if req['line_present'] else None,
+                '.debug_str': bytes.fromhex(secs['str']) if 'str' in secs else None,
+                '.debug_line_str': bytes.fromhex(secs['line_str']) if 'line_str' in secs else None}
+    sup = bytes.fromhex(req['sup_str']) if req['sup_str'] is not None else None
+    elf, ztable = None, None
+    if fx.get('via_elf'):
+        from elftools.elf.elffile import ELFFile
+        from props import c11
+        elf = build_elf_stored(le, dasz, sections, fx['store'], fx['level'], fx['zsubset'])
+        # zlib is external to the model: its answers are recorded from the real module (as C11 does)
+        di, ztable = c11.with_zrec(lambda: ELFFile(io.BytesIO(elf)).get_dwarf_info())
+    else:
+        di = make_dwarfinfo(le, dasz, sections, sup if req['sup_present'] else None)
+        if req['sup_present'] and sup is None:
+            di.supplementary_dwarfinfo = make_dwarfinfo(le, dasz, {}, None)
+    cus = list(di.iter_CUs())
+    res = []
+    for idx, pre in zip(req['order'], fx['pre']):
+        cu = cus[idx]
+        # disturbances of the unit object before the observed call: none of them may change what is observed
+        if pre == 'top':
+            cu.get_top_DIE()
+        elif pre == 'iter':
+            for _ in cu.iter_DIEs():
+                pass
+        elif pre == 'abandon':
+            it = cu.iter_DIEs()
+            next(it, None)
+            next(it, None)
+        res.append(observe_cu(di, cu))
+    out = {'n_units': len(cus), 'results': res}
+    if elf is not None:
+        out['elf'] = elf.hex()
+        out['zlib'] = [[hx(d), k, None if o is None else hx(o)] for (d, k), o in ztable.items()]
+    return out
+
+
+def check_info(ctx, req, fx, reply):
+    out = ctx.out
+    case = {'req': req, 'fx': fx}
+    impl = run_impl(lambda: info_impl(req, fx, reply))
+    if 'err' in impl:
+        out.case(case)
+        # the unit iteration itself failed: C04's business, but the model says it cannot on these inputs
+        out.violation('correspondence', 'info', case, got=impl, model={'n_units': reply['n_units'], 'end': reply['end']})
+        return
+    if impl['ok']['n_units'] != reply['n_units']:
+        out.violation('correspondence', 'info', case, got={'n_units': impl['ok']['n_units']}, model={'n_units': reply['n_units']})
+        return
+    if 'elf' in impl['ok']:
+        # the whole-file model (C11's container model + dinfoOfView + the same unit loop) on the image's bytes
+        out.count('info:file:%s' % fx['store'])
+        fm = ctx.driver.ask({'p': 'C05', 'k': 'file', 'elf': impl['ok']['elf'], 'zlib': impl['ok']['zlib'], 'order': req['order']})
+        if 'fatal' in fm:
+            raise RuntimeError('driver: %s' % fm['fatal'])
+        if 'view_err' in fm or fm.get('n_units') != impl['ok']['n_units']:
+            out.violation('correspondence', 'info', dict(case, file=True), stage='file-model',
+                          got={'n_units': impl['ok']['n_units']}, model=_brief({k: fm[k] for k in fm if k != 'model'}))
+            return
+        fmodels = fm['model']
+    else:
+        fmodels = None
+    wf_forest = reply['wf_forest']
+    wf_all = wf_forest and reply['lines_ok'] and reply['domain']
+    out.count('info:%s' % ('wf' if wf_all else 'forest-wf-only' if wf_forest else 'not-wf'))
+    seen = {}
+    tainted = set()
+    for pos, (idx, got, model) in enumerate(zip(req['order'], impl['ok']['results'], reply['model'])):
+        e = reply['expect'][idx]
+        kind = e['kind']
+        c = dict(case, pos=pos, unit=idx)
+        okp = got['parse'].get('ok') if isinstance(got.get('parse'), dict) else None
+        objkey = (okp['start'], okp['end']) if okp else None       # identifies the (cached, shared) LineProgram object
+        if objkey in tainted:
+            # a get_entries() that raised half-way left DW_LNE_define_file appends behind in the cached, shared header;
+            # the model (a function of the bytes) does not reproduce that (as in `sec` / `raw`): later looks at the same
+            # object are not compared
+            out.count('info:skipped-after-failed-decode')
+            continue
+        out.case({'info': reply['info'], 'abbrev': reply['abbrev'], 'line': reply['line'], 'pos': pos, 'order': req['order'],
+                  'le': req['le'], 'secs': req['secs']})
+        v = e.get('v')
+        bad = None
+        if kind == 'prog' and wf_all:
+            out.count('info:property:prog%s' % (':shared' if v in seen else ''))
+            files_after = e['file_entry_after']
+            if files_after is None:
+                files_after = dict(e['header']['r'])['file_entry']
+            repeat = v in seen
+            exp_parse = {'ok': {'header': hdr_with_files(e['header'], files_after if repeat else None),
+                                'start': e['start'], 'end': e['end']}}
+            if got['parse'] != exp_parse:
+                bad = ('parse', exp_parse, got['parse'])
+            elif 'ok' not in got.get('decode', {}):
+                bad = ('decode', 'rows', got.get('decode'))
+            else:
+                d = got['decode']['ok']
+                obs = {'rows': rows_of(d), 'file_entry_after': d['file_entry_after'], 'tell': d['tell']}
+                exp = {'rows': e['rows'], 'file_entry_after': files_after, 'tell': None if repeat else e['tell']}
+                if obs != exp:
+                    k = next((i for i, (a, b) in enumerate(zip(obs['rows'], exp['rows'])) if a != b), None)
+                    bad = ('decode', {'first_diff_row': k, 'expect': exp['rows'][k] if k is not None else None,
+                                      'n_rows': len(exp['rows']), 'file_entry_after': exp['file_entry_after'], 'tell': exp['tell']},
+                           {'row': obs['rows'][k] if k is not None else None, 'n_rows': len(obs['rows']),
+                            'file_entry_after': obs['file_entry_after'], 'tell': obs['tell']})
+        elif kind == 'absent' and wf_forest:
+            out.count('info:property:absent')
+            if got != {'parse': {'ok': None}}:
+                bad = ('parse', {'parse': {'ok': None}}, got)
+        if bad is not None:
+            out.violation('property', 'info', c, stage=bad[0], expect=_brief(bad[1]), got=_brief(bad[2]))
+        elif kind in ('beyond', 'noline') and wf_forest and v not in seen:
+            # outside the property's quantifier; the theorems predict what the MODEL does (stmt_list_beyond_section /
+            # stmt_list_without_debug_line), the library is held to the model below
+            pred = {'parse': {'err': 'elfParseError' if kind == 'beyond' else 'attributeError'}}
+            out.count('info:predicted:%s' % kind)
+            if model != pred:
+                out.violation('correspondence', 'info', c, stage='model-vs-theorem', got=_brief(model), model=pred)
+        if bad is None and got != model:
+            out.violation('correspondence', 'info', c, got=_brief(got), model=_brief(model))
+        elif bad is None and fmodels is not None and got != fmodels[pos]:
+            out.violation('correspondence', 'info', dict(c, file=True), stage='file-model', got=_brief(got), model=_brief(fmodels[pos]))
+        if v is not None and 'ok' in got['parse'] and got['parse']['ok'] is not None:
+            seen[v] = seen.get(v, 0) + 1
+        if objkey is not None and ('err' in got.get('decode', {}) or 'err' in model.get('decode', {})):
+            tainted.add(objkey)
+
+
+def run_info(ctx):
+    rng = ctx.rng('info')
+    n = ctx.budget(450, 5000)
+    for i in range(n):
+        if ctx.time_left() < 20:
+            ctx.out.notes.append('info: stopped early at %d cases (time budget)' % i)
+            break
+        base, so, store = gen_info_lines(ctx, rng)
+        r1 = ctx.driver.ask(dict(base, abbrevs=[], units=[]))
+        if 'fatal' in r1:
+            raise RuntimeError('driver: %s' % r1['fatal'])
+        req, fx = gen_info_units(ctx, rng, base, so, r1['line_offs'], len(r1['line']) // 2, store)
+        rp = ctx.driver.ask(req)
+        if 'fatal' in rp:
+            raise RuntimeError('driver: %s on %r' % (rp['fatal'], str(req)[:600]))
+        ctx.out.count('info')
+        check_info(ctx, req, fx, rp)
+
+
 # ----------------------------------------------------------------------------- streams
 def run_sec(ctx, stream='sec', n=None, keep=None):
     rng = ctx.rng(stream)
@@ -596,8 +968,13 @@ def run_raw(ctx, kept):
 
 
 def run(ctx):
+    import os
+    if os.environ.get('VERIF_C05_ONLY') == 'info':         # development aid (mutation tests of the info stream alone)
+        run_info(ctx)
+        return
     kept_edge = run_sec(ctx, 'edge', n=ctx.budget(400, 4000), keep=ctx.budget(120, 800))
     kept = run_sec(ctx)
+    run_info(ctx)
     run_raw(ctx, kept_edge + kept)
 
 
@@ -605,6 +982,20 @@ def replay(ctx, payload):
     v = payload['violation']
     case = v['case']
     req, fx = case['req'], case['fx']
+    if v['stream'] == 'info':
+        rp = ctx.driver.ask(req)
+        if 'fatal' in rp:
+            return {'fatal': rp['fatal'], 'fails': True}
+        from common import Outcome
+        saved = ctx.out
+        ctx.out = Outcome(ctx.prop)
+        try:
+            check_info(ctx, req, fx, rp)
+            vs = ctx.out.violations
+        finally:
+            ctx.out = saved
+        return {'stream': 'info', 'violations': [{k: x[k] for k in x if k != 'case'} for x in vs[:3]],
+                'n_violations': len(vs), 'fails': bool(vs)}
     if v['stream'] == 'raw':
         try:
             guarded(lambda: impl_for(req, fx, bytes.fromhex(req['hex']), req['unit_offsets']))
